@@ -27,6 +27,8 @@ func main() {
 			os.Exit(childSeqRawNil())
 		}
 		os.Exit(childMain(os.Args[2:]))
+	case "freeze-facts":
+		os.Exit(cmdFreezeFacts())
 	case "facts":
 		os.Exit(cmdFacts())
 	case "gen":
